@@ -26,6 +26,14 @@ def alloc_programs(tier):
                     body = "let (x, n) = count_allocs(|| %s);\nformat!(\"{:?} allocation-free={}\", x, n == 0)"
                     sub = fp.fail_slots(ds) if (mac == "try_join" and sum(ds) <= 6) else ()
                     progs.append(Prog("alloc/%s/%s/%s/%d%d" % (mac, fl, fp.pname(ds), rich, wrap), body % r, body % d, fp.offset_rows() if not sub else [[0]], "Value", meta={"macro": mac, "dsl": d, "ref": r}, sub=sub))
+                    # the same program behind every option that changes how the branches of a step are handed over: the
+                    # sequential macros must stay allocation-free (e.g. no thread builders prepared "just in case")
+                    if len(ds) in (2, 3) and not wrap and fl != "Opt" and (sum(ds) <= 6 or tier != "quick"):
+                        for oi, opts in enumerate(("custom_joiner(jm!)", "lazy_branches(true) custom_joiner(jl!)", "lazy_branches(false)", "transpose_results(true) lazy_branches(false)" if mac == "try_join" else "custom_joiner(jm!) lazy_branches(false)")):
+                            p.options = [opts]
+                            d2 = dsl.program_dsl(p)
+                            progs.append(Prog("alloc/%s/%s/%s/%d%d/o%d" % (mac, fl, fp.pname(ds), rich, wrap, oi), body % r, body % d2, fp.offset_rows() if not sub else [[0]], "Value", meta={"macro": mac, "dsl": d2, "ref": r}, sub=sub))
+                        p.options = []
     return progs
 
 
